@@ -75,7 +75,7 @@ PROPS = {
         require={'wrapped-with-two-outstanding': 1000, 'depth-1': 1000, 'depth-32': 1000, 'slack': 1000,
                  'send-out-of-claim-order-possible': 1000,
                  'long-life (>= 256 messages before the generated operations)': 1000,
-                 'long-life (>= 65536 messages before the generated operations)': 200},
+                 'long-life (>= 65536 messages before the generated operations)': 200, 'pre-cycled-with-the-queue-full': 1000},
         assumptions=['releases follow receives in receive order (the only order the API documents)'],
     ),
     'C19': dict(
@@ -88,14 +88,15 @@ PROPS = {
              'rotenc_count14 == latched position mod 2^14, low 8 bits agree, within one click of the true position '
              '(when no invalid jump happened since the last detent). Non-trivial: a reading taken part-way through '
              'a click within one click of a multiple of 256. Distinct = distinct product states / tapes.',
+        rule_more='Later additions: random walks include 1..36000 laps that never sample the detent (two valid quarter-steps, then an invalid jump across state 0), the region the BFS prunes.',
         stages=[
             dict(h='rotenc', mode='custom', what='reachable product state space (BFS)', workers=1),
-            dict(h='rotenc', mode='rc', what='random walks', quick=dict(cases=3000, len=200),
-                 thorough=dict(cases=100000, len=200)),
+            dict(h='rotenc', mode='rc', what='random walks', quick=dict(cases=40000, len=200),
+                 thorough=dict(cases=1000000, len=200)),
             dict(h='rotenc', mode='enum', what='all input sequences', quick=dict(params=dict(ops=8)),
                  thorough=dict(params=dict(ops=11))),
         ],
-        require={'bounce': 100, 'invalid-jump': 100, 'part-way-through-a-click-next-to-a-multiple-of-256': 20,
+        require={'128-or-more-quarter-steps-without-a-detent-sample': 1000, 'bounce': 100, 'invalid-jump': 100, 'part-way-through-a-click-next-to-a-multiple-of-256': 20,
                  'product states (decoder x model)': 100000},
         assumptions=['clockwise is 00->01->11->10->00 as the transition table in rotenc.c documents',
                      '"never more than one click from the true position" is asserted only while no invalid two-bit jump has occurred since the last detent (invalid jumps can hide arbitrarily many quarter-steps from the detent latch)'],
@@ -129,6 +130,7 @@ PROPS = {
              'safety (range, termination bound, -1 sticky, resume pointer inside the string, ASan on an exact heap '
              'block). Non-trivial: arrays > 16 bytes, multi-line prefixed texts, strings of >= 2 characters. '
              'Distinct = distinct tapes; enum stage = every string of length 6 (8 thorough) over the alphabet {0,x,a,F,:,newline,space,g}.',
+        rule_more='Later additions: runs of 254..2500 blank lines between data lines; very rarely dumps of 1 MiB and 5 MiB.',
         stages=[
             dict(h='hex', mode='rc', what='random arrays, grammar texts, arbitrary strings',
                  quick=dict(cases=200000, len=260), thorough=dict(cases=5000000, len=260)),
@@ -137,7 +139,7 @@ PROPS = {
             dict(h='hex', mode='fuzz', what='libFuzzer over arrays, grammar texts and arbitrary strings',
                  quick=dict(runs=600000, max_len=300, len=260), thorough=dict(runs=40000000, max_len=300, len=260, timeout=3000)),
         ],
-        require={'round-trip-more-than-one-line': 1000, 'dump-of-256-bytes-or-more': 500, 'dump-of-65535-bytes-or-more': 100, 'grammar-multi-line-with-prefix': 1000, 'arbitrary-string': 1000,
+        require={'round-trip-more-than-one-line': 1000, 'dump-of-256-bytes-or-more': 500, 'dump-of-65535-bytes-or-more': 100, 'run-of-999-or-more-blank-lines': 100, 'grammar-multi-line-with-prefix': 1000, 'arbitrary-string': 1000,
                  'trailing-junk': 1000, 'grammar-without-prefix': 1000},
         assumptions=['texts with an address prefix on only some lines are outside the stated grammar ("on each line") and are generated for the safety oracle only',
                      'glibc isspace/isxdigit accept negative char values (bytes >= 0x80) without faulting'],
@@ -153,7 +155,9 @@ PROPS = {
              'random shapes <= 12 nodes, large/degenerate shapes up to 300 nodes (spines, zig-zag, skewed, full), and '
              'left/right-leaning list spines of 0..20 list nodes (list iterator vs bintree_traverse_list). '
              'Non-trivial: >= 3 nodes with a two-child node, or a spine of >= 2 list nodes. Distinct = distinct tapes.',
+        rule_more='Later additions: custom stage = chains, zig-zag, comb and list spines of 65536..131075 nodes (iterators vs an explicit-stack traversal, links restored, bintree_free exactly once and children first); the two slowest shapes run in the thorough tier only.',
         stages=[
+            dict(h='bintree', mode='custom', what='deep shapes: chains, zig-zag, comb, list spines beyond 2^16', workers=9, common=dict(watchdog=300), quick=dict(params=dict(heavy=0)), thorough=dict(params=dict(heavy=1))),
             dict(h='bintree', mode='enum', what='all shapes, malloc-per-node', params=dict(kind=0, mis=0),
                  common=dict(split=8), quick=dict(params=dict(nodes=12)), thorough=dict(params=dict(nodes=14))),
             dict(h='bintree', mode='enum', what='all shapes, 2-byte-aligned nodes', params=dict(kind=0, mis=1),
@@ -162,7 +166,7 @@ PROPS = {
             dict(h='bintree', mode='rc', what='random / large / degenerate shapes and spines',
                  quick=dict(cases=100000, len=700, maxsize=100), thorough=dict(cases=2000000, len=700)),
         ],
-        require={'empty-tree': 1, 'single-node': 1, 'two-byte-aligned-nodes': 1000, 'large-shape': 500,
+        require={'deep-shape (depth >= 65536)': 7, 'empty-tree': 1, 'single-node': 1, 'two-byte-aligned-nodes': 1000, 'large-shape': 500,
                  'left-leaning-spine': 20, 'right-leaning-spine': 20, 'free-every-node-and-side': 1000},
         assumptions=['list spines have non-NULL, non-list elements and lean one way (as the header draws them)',
                      'the 2-byte-aligned variant is built with UBSan alignment checks off: the misalignment is the harness choice, inside the stated domain',
@@ -200,13 +204,14 @@ PROPS = {
              're-encoding gives r and the same bytes with skipped extension bytes zeroed. Non-trivial: forward with '
              'frames>0 or channels>1 or dirty prior contents; reverse accepted with fact chunk or extension. '
              'Distinct = distinct tapes.',
+        rule_more='Later additions: one structured header in 31 carries an unknown fmt extension of 255..70000 bytes supplied in full.',
         stages=[
             dict(h='wav', mode='rc', what='forward + structured reverse', params=dict(oracle=13),
                  quick=dict(cases=200000, len=200), thorough=dict(cases=5000000, len=200)),
             dict(h='wav', mode='fuzz', what='libFuzzer over structured headers (reverse oracle)', params=dict(oracle=13, kind=1),
                  quick=dict(runs=400000, max_len=300, len=200), thorough=dict(runs=30000000, max_len=300, len=200, timeout=3000)),
         ],
-        require={'forward-over-previous-header': 1000, 'forward-frames-set-twice': 1000, 'accepted': 1000,
+        require={'unknown-extension-of-65535-bytes-or-more': 100, 'forward-over-previous-header': 1000, 'forward-frames-set-twice': 1000, 'accepted': 1000,
                  'accepted-with-fact-chunk': 300, 'accepted-with-extension': 300},
         assumptions=['byte_rate = rate*block_align is kept below 2^31 (it is computed in int); block_align <= 65535; header+data < 2^32',
                      'rf_wavheader_t has no padding (checked: 80 bytes), so byte identity of the structure is field identity'],
@@ -221,13 +226,14 @@ PROPS = {
              'accepted header must not succeed; validate/get_format/tostring must return on every resulting structure '
              '(signals and sanitizer reports kill the worker and are violations). Non-trivial: length>=44 with the magic '
              'present. Distinct = distinct tapes.',
+        rule_more='Later additions: unknown fmt extensions of 255..70000 bytes supplied in full; for headers above 1000 bytes the truncation clause is tried at the first and last 300 lengths and every 509th in between.',
         stages=[
             dict(h='wav', mode='rc', what='structured + raw untrusted bytes', params=dict(oracle=14),
                  quick=dict(cases=300000, len=220), thorough=dict(cases=10000000, len=220)),
             dict(h='wav', mode='fuzz', what='libFuzzer (coverage-guided) over raw and structured bytes, same oracle', params=dict(oracle=14),
                  quick=dict(runs=600000, max_len=300, len=220), thorough=dict(runs=40000000, max_len=300, len=220, timeout=3000)),
         ],
-        require={'length>=44-and-magic-present': 1000, 'accepted': 1000, 'structured-truncated': 1000, 'raw-bytes': 1000},
+        require={'unknown-extension-of-65535-bytes-or-more': 100, 'length>=44-and-magic-present': 1000, 'accepted': 1000, 'structured-truncated': 1000, 'raw-bytes': 1000},
         assumptions=['declared lengths stay far below 2^31 (return type int)'],
     ),
     'C15': dict(
@@ -245,6 +251,7 @@ PROPS = {
              'enum stage = every stream of the given length over {a, space, single quote, double quote, BS, ^C, NL} with command '
              '"a" registered. Non-trivial: a line with a quoted argument, an edit keystroke or length>=70; a registration case '
              'that reaches the full table; an injection longer than the ring. Distinct = distinct tapes.',
+        rule_more='Later additions: two commands in five overwrite all or part of the scratch area after parsing their arguments (console.h documents that use); every dispatched command must have run to completion when the console goes idle.',
         stages=[
             dict(h='console', mode='rc', what='random streams, three delivery mechanisms, registration',
                  quick=dict(cases=100000, len=600), thorough=dict(cases=3000000, len=600)),
@@ -270,6 +277,7 @@ PROPS = {
              'run-time value and with gcc builtins; rc stage: random 32/64-bit arguments and table entries. '
              'Non-trivial: argument is neither 0 nor all-ones; distinct = distinct arguments (counted directly '
              'for the exhaustive stage, by tape hash for the random stage).',
+        rule_more='Later additions: macro results are carried as long long (a -1 delivered as 2^32-1 is seen); a function that aborts inside the 2^32 sweep leaves a replayable case.',
         stages=[
             dict(h='bitops', mode='custom', what='exhaustive 2^32 + pattern sets + constant-expression table'),
             dict(h='bitops', mode='rc', what='random 32/64-bit arguments',
@@ -303,6 +311,7 @@ PROPS = {
              'every fibre_kill and fibre_run_atomic result. Non-trivial: >=2 fibres and a coalesced reason, a kill that returned true, >=2 '
              'atomic requests at one drain, a timer cancelled by run/kill, or a restart after exit. Distinct = distinct tapes. enum stage = '
              'every history of the given length over 3 fibres with <=1 inner call per dispatch.',
+        rule_more="Later additions: a reached fibre_timeout may follow an armed one in the same dispatch; one history in eight has 9-14 fibres (half of those 'sleepy': most dispatches just sleep a few ticks, time mostly stands still, then jumps).",
         stages=[
             dict(h='fibre', mode='rc', what='random histories', params=dict(oracle=1),
                  quick=dict(cases=200000, len=500), thorough=dict(cases=5000000, len=500)),
@@ -311,7 +320,7 @@ PROPS = {
             dict(h='fibre', mode='fuzz', what='libFuzzer over scheduler histories', params=dict(oracle=1),
                  quick=dict(runs=300000, max_len=600, len=500), thorough=dict(runs=20000000, max_len=600, len=500, timeout=3000)),
         ],
-        require={'coalesced-reason': 1000, 'kill-returned-true': 1000, 'two-or-more-atomic-requests-at-one-drain': 1000,
+        require={'nine-or-more-fibres': 1000, 'satisfied-timeout-after-an-armed-one': 1000, 'coalesced-reason': 1000, 'kill-returned-true': 1000, 'two-or-more-atomic-requests-at-one-drain': 1000,
                  'timer-cancelled-by-run-or-kill': 1000, 'restart-after-exit': 1000},
         assumptions=['scope of the property is built into the generator: one unsatisfied fibre_timeout per dispatch, time within the 2^31 window; a fibre_run_atomic is never issued while 8 are undrained (what the 9th returns is outside the scope); acceptance below 8 is asserted',
                      'fibre_kill of the fibre that yielded in the previous pass does not stop its re-queue at the next pass (the statement places that re-queue at the next pass)'],
@@ -324,13 +333,14 @@ PROPS = {
              'involve a fibre with timer activity since it last ran); and the metamorphic form of wrap-safety: the same tape replayed at '
              'time base 0 must give the same observation trace. Non-trivial: >=2 sleepers expiring in one pass, a cancellation, or a pass '
              'window straddling 0xffffffff->0 or 0x7fffffff->0x80000000 with timers in use. Distinct = distinct tapes.',
+        rule_more='Later additions: as C01 (satisfied timeout after an armed one; crowds of 9-14 fibres so that nine or more timeouts expire in one pass); a libFuzzer stage over the same histories.',
         stages=[
             dict(h='fibre', mode='rc', what='timer-heavy random histories', params=dict(oracle=2, profile=2),
-                 quick=dict(cases=400000, len=500), thorough=dict(cases=30000000, len=500)),
+                 quick=dict(cases=400000, len=500), thorough=dict(cases=15000000, len=500)),
             dict(h='fibre', mode='fuzz', what='libFuzzer over timer-heavy histories', params=dict(oracle=2, profile=2),
                  quick=dict(runs=300000, max_len=600, len=500), thorough=dict(runs=20000000, max_len=600, len=500, timeout=3000)),
         ],
-        require={'two-or-more-sleepers-expire-in-one-pass': 1000, 'timer-cancelled-by-run-or-kill': 1000,
+        require={'nine-or-more-sleepers-expire-in-one-pass': 200, 'satisfied-timeout-after-an-armed-one': 1000, 'two-or-more-sleepers-expire-in-one-pass': 1000, 'timer-cancelled-by-run-or-kill': 1000,
                  'window-straddles-a-wrap-point': 1000, 'metamorphic-base-0-replay': 1000},
         assumptions=['all pending due times lie within 2^31 ticks after the current time (by construction)'],
     ),
@@ -340,6 +350,7 @@ PROPS = {
              'yielded or anything is runnable on return (run queue or an undrained accepted atomic request, including those issued by the '
              'fibre body), else the earliest pending due time (cyclically after t), else t+FIBRE_UNBOUNDED_SLEEP. Non-trivial: a call that '
              'returns with an undrained request, or with only timers pending, or after a yield. Distinct = distinct tapes.',
+        rule_more='Later additions: as C01 (crowds; satisfied timeout after an armed one); event queue depth 3, warmed-up event queue and a sleeper calling fibre_run before arming its timeout in the interrupt harness.',
         stages=[
             dict(h='fibre', mode='rc', what='random histories', params=dict(oracle=3),
                  quick=dict(cases=200000, len=500), thorough=dict(cases=5000000, len=500)),
@@ -371,6 +382,7 @@ PROPS = {
              'only: exclusive ownership, inside storage and slot aligned, each sent message received once and intact, claim order, '
              'justified claim failure, conservation at quiescence, no access outside the storage. Non-trivial: two claims (or a claim '
              'and a release) overlap in time and the queue was full at some instant. Distinct = distinct tapes.',
+        rule_more='Later additions: one case in eight pre-cycles 240-280 messages before the concurrent phase; one in twelve uses 4096-byte messages with depth 17-32 (slots beyond 64 KiB).',
         stages=[
             dict(h='mqconc', mode='enum', what='THREADS, 2 senders x 1 msg, depth 1, 1 retry, bounded pre-emptions (params.preempt)', params=dict(mode=0, depth=1, senders=2, msgs=1, retries=1, preempt=4, oracle=4),
                  common=dict(split=5, maxruns=400000), thorough=dict(params=dict(preempt=5), maxruns=6000000)),
@@ -399,7 +411,7 @@ PROPS = {
             dict(h='mqconc', mode='fuzz', what='libFuzzer (coverage-guided) over scenarios and schedules', params=dict(oracle=4),
                  quick=dict(runs=800000, max_len=400, len=400), thorough=dict(runs=60000000, max_len=400, len=400, timeout=3000)),
         ],
-        require={'claims-overlap-in-time': 1000, 'queue-full-at-some-instant': 1000, 'a-claim-failed': 1000, 'two-or-more-interrupts': 1000,
+        require={'long-life (>= 240 messages before the concurrent phase)': 1000, 'slots beyond 64 KiB': 1000, 'claims-overlap-in-time': 1000, 'queue-full-at-some-instant': 1000, 'a-claim-failed': 1000, 'two-or-more-interrupts': 1000,
                  'preempted': 1000, 'threads-mode': 1000, 'isr-senders-interrupt-receiver': 1000, 'isr-receiver-interrupts-sender': 500},
         assumptions=['executions are sequentially consistent interleavings at atomic-operation granularity (C07 carries them to weaker machines)',
                      'releases follow receive order; one receiver'],
@@ -417,8 +429,11 @@ PROPS = {
              'only if the event times allow the buffer to have been full / empty during the call, every instrumented access inside '
              'the buffer, canaries intact. Non-trivial: buffer both full and empty at some point and a put overlapped a get. '
              'Distinct = distinct tapes.',
+        rule_more='Later additions: custom stage = long hauls with every byte checked: 2^24 (quick) / 2^32+1000 (thorough) bytes through one ring of 3, 6, 7, 255, 65537 bytes; thorough: one lap of rings of 2^31, 2^31+5 and 2^32-1 bytes (lazily mapped).',
         stages=[
             dict(h='ringseq', mode='rc', what='sequential histories under ASan', quick=dict(cases=100000, len=260), thorough=dict(cases=3000000, len=260)),
+            dict(h='ringseq', mode='custom', what='long hauls: 2^24 (quick) / 2^32 (thorough) bytes through one small ring; rings of 2^31 bytes and more (thorough)',
+                 workers=10, common=dict(watchdog=0), quick=dict(params=dict(heavy=0)), thorough=dict(params=dict(heavy=1), timeout=3000)),
         ] + [
             dict(h='ringconc', mode='enum', what='THREADS len %d, 3 puts, 4 consumer ops, start offset %d, all schedules' % (L, pre),
                  params=dict(mode=0, len=L, puts=3, gets=4, pre=pre, empties=1, oracle=5), workers=4, common=dict(split=4, maxruns=2000000))
@@ -461,6 +476,7 @@ PROPS = {
              'sequential epilogue (kill all, fibre_run in a generated order, four passes) dispatches exactly in that order. enum '
              'stages enumerate every placement for fixed scripts. Non-trivial: an interrupt strictly inside fibre_scheduler_next / '
              'fibre_run / fibre_kill / fibre_run_atomic, or nested between another handler\'s claim and send. Distinct = distinct tapes.',
+        rule_more='Later additions: event queue depth 1-3; one case in eight first passes 245-275 events through the queue sequentially; the sleeper may call fibre_run before arming its timeout.',
         stages=[
             dict(h='fibconc', mode='enum', what='ISR, script %d, handlers %s, %s granularity' % (sc, hs, 'every-access' if ea else 'atomic'),
                  params=dict(dict(mode=1, script=sc, every_access=ea, oracle=6, handlers=len(hs), evdepth=ed), **{'h%d' % i: v for i, v in enumerate(hs)}),
@@ -481,7 +497,7 @@ PROPS = {
             dict(h='fibconc', mode='fuzz', what='libFuzzer (coverage-guided) over scripts, handlers and placements', params=dict(oracle=6),
                  quick=dict(runs=300000, max_len=500, len=500), thorough=dict(runs=30000000, max_len=500, len=500, timeout=3000)),
         ],
-        require={'interrupt-inside-fibre_scheduler_next': 1000, 'interrupt-inside-fibre_run': 200, 'interrupt-inside-fibre_kill': 100,
+        require={'event-queue-warmed-up (>= 245 events before the scenario)': 1000, 'sleeper-calls-fibre_run-before-arming-its-timeout': 1000, 'interrupt-inside-fibre_scheduler_next': 1000, 'interrupt-inside-fibre_run': 200, 'interrupt-inside-fibre_kill': 100,
                  'interrupt-inside-fibre_run_atomic': 50, 'interrupt-nested-between-claim-and-send': 100, 'event-queue-full-path': 500,
                  'event-delivered': 1000, 'threads-mode': 1000, 'console-line-delivered': 1000, 'console-input-interleaved-with-scheduler': 1000},
         assumptions=['"is dispatched by a subsequent call" is checked as bounded eventuality: within 4*(3+requests)+8+yields passes after the last interrupt',
@@ -500,6 +516,7 @@ PROPS = {
              'are treated as threads created at scenario start. Non-trivial: the execution contains a cross-context hand-over (payload '
              'written by one context and read by another, or a wake-up request). Distinct = distinct tapes. Thorough adds real pthreads '
              'under the real ThreadSanitizer.',
+        rule_more='Later additions: as C04 / C06 (long-lived queues, slots beyond 64 KiB, warmed-up event queue).',
         stages=[
             dict(h='mqconc', mode='enum', what='message queue, THREADS, 2 senders x 1, depth 2, bounded pre-emptions (params.preempt)', params=dict(mode=0, depth=2, senders=2, msgs=1, retries=0, preempt=3, oracle=7),
                  workers=4, common=dict(split=5, maxruns=400000)),
@@ -537,11 +554,12 @@ PROPS = {
              'a second round); its per-invocation trace (events, return code) must equal that of a reference interpreter over the same '
              'AST in which every thread is a Python generator. Non-trivial: a blocking point executed inside a loop inside a '
              'conditional, or a child spawned more than once, or a failing child. Distinct = distinct ASTs (SHA-1).',
+        rule_more='Later additions: the arguments of PT_WAIT_UNTIL / PT_EXIT_ON / PT_FAIL_ON are, 3 times in 8, the same truth value as a 64-bit word with a zero low half, a double below 1, or a pointer.',
         stages=[
             dict(h='pt', mode='script', what='generated programs vs reference interpreter',
                  quick=dict(params=dict(cases=4800), timeout=900), thorough=dict(params=dict(cases=120000), timeout=3400)),
         ],
-        require={'blocking point inside a loop inside a conditional': 20, 'a child spawned more than once': 100, 'a failing child': 50,
+        require={'a PT_* condition that is a 64-bit word, a double or a pointer': 200, 'blocking point inside a loop inside a conditional': 20, 'a child spawned more than once': 100, 'a failing child': 50,
                  'child yield/wait relayed upward': 100, 'two rounds (PT_INIT after exit)': 100, 'unbraced single-statement body': 100},
         assumptions=['the grammar covers compositions without goto, switch and do/while+continue; one PT_* blocking macro per source line',
                      'gcc -O0 of the sandbox compiles the macros; a different compiler is not examined'],
@@ -550,7 +568,7 @@ PROPS = {
     ),
     'C09': dict(
         title='Linked list behaves as a sequence under every order of operations',
-        rule='case = choice tape decoded into (node keys, <=60 list ops over 6 nodes / 3 lists / 2 iterators); '
+        rule='case = choice tape decoded into (node keys, scaled so that the comparator returns differences of up to 2^30, <=60 list ops over 6 nodes / 3 lists / 2 iterators); custom stage = one list of 255..200000 nodes (membership and iterator position around 2^8 / 2^16 / the end, removal at depth, traversal, sorted insertion); '
              'enum stage = every op sequence of the given length over 3 nodes / 2 lists / 1 iterator. '
              'Non-trivial: the history contains a head/tail insertion after the last or only element was removed, '
              'or an iterator operation at/past the end, or a sorted insert among equal keys. '
@@ -558,12 +576,14 @@ PROPS = {
         stages=[
             dict(h='list', mode='rc', what='random histories',
                  quick=dict(cases=600000, len=260), thorough=dict(cases=5000000, len=260)),
+            dict(h='list', mode='custom', what='one long list (255 ... 200000 nodes)', workers=4),
             dict(h='list', mode='enum', what='all op sequences, reduced domain',
                  params=dict(nodes=3, lists=2, iters=1, keys=2),
                  quick=dict(params=dict(ops=4)), thorough=dict(params=dict(ops=5))),
         ],
         require={'insert-after-list-emptied': 100, 'insert-after-tail-removed': 100, 'next-past-the-end': 100,
-                 'iterator-insert-at-end': 100, 'iterator-remove-last': 100, 'sorted-insert-among-equals': 100},
+                 'iterator-insert-at-end': 100, 'iterator-remove-last': 100, 'sorted-insert-among-equals': 100,
+                 'comparator-results-beyond-16-bits': 1000, 'list-longer-than-65536-nodes': 5},
         assumptions=['an iterator is used only until its list is mutated by other means (conservative reading)',
                      'a node is inserted only while it is a member of no list (scope of the property)'],
     ),
